@@ -218,6 +218,43 @@ def run(F, tier, res):
             else:
                 okw += 1
     res.rule('C19.WRAPPER', nw, 5, 'call sites of the file-hyperlink formatter; sibling arms of the hyperlink decision print the wrapped text', discharged=okw)
+    # ---------- TARGET: the path handed to absolute_path for a link is the file name as parsed, not its display form
+    DISPLAY_ONLY = ('file_regex_replacement', 'file_modified_label', 'file_added_label', 'file_removed_label', 'file_renamed_label', 'file_copied_label', 'right_arrow')
+    nt = okt = 0
+
+    def display_taint(fn, op, depth=0):
+        """names of display-only transformations in the provenance of op (following closure parameters to the closure's callers once)"""
+        out = []
+        for r in F.trace(fn, op, deep=True):
+            if r[0] == 'call':
+                cal = r[1]
+                if 'RegexReplacement' in cal or cal.endswith('::paint') or 'ANSIStrings' in cal or 'ANSIGenericString' in cal:
+                    out.append(cal)
+                for a in r[4]['args']:
+                    for rr in F.trace(fn, a):
+                        if rr[0] == 'param' and rr[2] and rr[2][-1] in DISPLAY_ONLY:
+                            out.append('%s(config.%s)' % (cal, rr[2][-1]))
+            elif r[0] == 'param' and r[2] and r[2][-1] in DISPLAY_ONLY:
+                out.append('config.' + r[2][-1])
+            elif r[0] == 'param' and '{closure' in fn and depth == 0 and r[1] >= 2:
+                parent = fn.rsplit('::{closure', 1)[0]
+                if parent in F.fn_bodies:
+                    for j, c2 in F.calls(parent):
+                        if (c2.get('resolved') or '') == fn or callee_of(c2) == fn:
+                            k = r[1] - 1
+                            # closure call: args = (closure, (tuple of args)) or direct args
+                            for a in c2['args'][1:]:
+                                out += display_taint(parent, a, depth + 1)
+        return out
+    for (p, i, c) in Ru.call_sites(F, lambda r, cc: r.endswith('utils::path::absolute_path')):
+        nt += 1
+        bad = display_taint(p, c['args'][0])
+        if bad:
+            res.violate('TARGET', 'fn=%s' % p, 'the path resolved for a file hyperlink has passed through a display-only transformation (%s): the link no longer points at the file '
+                        'named in the section' % ', '.join(sorted(set(bad))[:3]), where=F.span_of_call(c))
+        else:
+            okt += 1
+    res.rule('C19.TARGET', nt, 5, 'absolute_path call sites: the argument derives from the parsed file name, not from a display transformation', discharged=okt)
     # ---------- LINE
     nl = okl = 0
     if ffl:
